@@ -129,14 +129,15 @@ fn trunc(case: &Case, data: &[u8], ctx: &mut Ctx) -> Option<Violation> {
             return None;
         }
     };
-    {
-        // a stream that does not even decode untruncated is C01/C02's business
-        let full = decode(case, &Arc::new(stream.clone()), &IoPolicy::default(), &[], data.len(), data.len() + (1 << 20), false);
-        if !matches!(full.end, End::Eof) || full.out != data {
-            ctx.metric("skipped_roundtrip_broken", 1);
-            return None;
-        }
+    // a stream that does not even decode untruncated is C01/C02's business
+    let full = decode(case, &Arc::new(stream.clone()), &IoPolicy::default(), &[], data.len(), data.len() + (1 << 20), false);
+    if !matches!(full.end, End::Eof) || full.out != data {
+        ctx.metric("skipped_roundtrip_broken", 1);
+        return None;
     }
+    // Bytes the reader never asks for (an end marker behind data whose size the reader was
+    // told) are not part of the stream as this reader sees it: cutting there is no truncation.
+    let needed = full.consumed.min(stream.len());
     ctx.bytes("stream", &stream);
     let comp = reader_component(case);
     let bounds = if case.fmt == "lzip" { lzip_member_bounds(&stream) } else { vec![] };
@@ -145,7 +146,13 @@ fn trunc(case: &Case, data: &[u8], ctx: &mut Ctx) -> Option<Violation> {
     let mut distinct: HashSet<u64> = HashSet::new();
     let mut found = None;
     for &t in &points {
-        if t >= stream.len() {
+        if t >= needed {
+            continue;
+        }
+        if t == 0 && case.fmt == "lzip" {
+            // A zero-byte file is read as an empty LZIP file. The repository's own suite relies
+            // on that (lzip_reference::executable_executable reads a 0-byte fixture), and C04
+            // only demands rejection of non-empty non-LZIP input.
             continue;
         }
         if bounds.contains(&t) {
